@@ -79,6 +79,7 @@ def run(res, args):
         if x:
             xs.append(x)
     xs += [xmlgen.syncml_xml(rng) for _ in range(120 if quick else 5000)]
+    xs += xmlgen.ambiguous_name_docs(d, rng, 40 if quick else 100000)
     opts = [(rng.choice([0, 1, 2, 3]), rng.choice([0, 1]), rng.choice([0, 1]), rng.choice([0, 0, 1])) for _ in xs]   # version keepws strtbl anonymous
     # sources in other declared encodings (the header must still say UTF-8: the body is always UTF-8)
     for x in rng.sample(docs, 12) + [g.doc() for _ in range(12)]:
